@@ -300,7 +300,7 @@ def install_behaviours(lib):
     C["Splitter"]["behaviour"] = sb
 
     # ---------------------------------------------------------------- Combiner.behaviour
-    cb_fields = ACC + ("pallet_in_process", "item_in_process", "stats.processing_delay")
+    cb_fields = ACC + ("pallet_in_process", "item_in_process", "stats.processing_delay", PI)
 
     def c_head(ex, st, mode):
         out = common_head(st, ("in", "out"))
@@ -495,6 +495,8 @@ class RecipeConsumeLoop:
         st.pc.append(nid >= st.next_id)
         st.next_id = nid
         st.f["item_in_process"] = _fresh_like(st.f["item_in_process"], tag + ".iip")
+        if PI in st.f:
+            st.f[PI] = _fresh_like(st.f[PI], tag + ".pi")
         for nm in ("triggered_events_sum", "chosen_get_event", "token_index", "edge_index"):
             st.loc[nm] = None
         st.loc["triggered_events"] = VOpaque("any_of")
@@ -537,6 +539,8 @@ class RecipeConsumeLoop:
         out.append(("other-tokens-untouched", Forall(1, lambda t: z3.Implies(z3.Or(t < base, t >= base + N),
                                                                                z3.Select(a1, t) == z3.Select(a0, t)), [base], "frame")))
         out.append(("pallet-in-hand", z3.Not(st.f["pallet_in_process"].isnone)))
+        if PI in st.f:
+            out.append(("pallet-content", st.f[PI].len >= 0))
         if mode == "prove" and entry is not st:
             gets = st.ghost.get("gets", [])
             packed = st.ghost.get("packed", [])
